@@ -382,6 +382,24 @@ func (s *Session) racCheck(prop string, u0 *Unit, o *Obligation, mv map[string]s
 		}
 		return strings.Contains(t, "allocs")
 	}
+	// the candidate input must satisfy the contract's preconditions (a model found with the
+	// quantified assumptions dropped, or by the precondition-model search, may not): otherwise the
+	// run says nothing about the contract
+	for i, rq := range ct.Requires {
+		t := u.evalSpecBool(&oenv, rq.Expr)
+		if len(u.errs) > 0 {
+			u.errs = nil
+			continue
+		}
+		script := Script(u.ctx, "ALL", nil, t, false)
+		file := filepath.Join(workDir, "racpre-"+hashText(script)+".smt2")
+		os.WriteFile(file, []byte(script), 0o644)
+		outb, _ := exec.Command("z3-new", "-T:20", file).CombinedOutput()
+		first := strings.TrimSpace(strings.SplitN(strings.TrimSpace(string(outb)), "\n", 2)[0])
+		if first != "unsat" {
+			return nil, fmt.Sprintf("the candidate input does not (provably) satisfy precondition %s: discarded", clauseLabel(rq, i))
+		}
+	}
 	if ct.Panics != nil {
 		p := u.evalSpecBool(&oenv, ct.Panics.Expr)
 		if hasProp(ct.Panics.props(ct), prop) {
